@@ -98,6 +98,66 @@ def seqBA : List Bool := [false, false, true, true]
 def spacing (lastCheck now : Int) : Bool × Int :=
   if lastCheck + 2 > now then (false, lastCheck) else (true, now)
 
+/-! ### validateUserTOTP under any schedule: load / gate+evaluate / save as atomic steps
+
+`validateUserTOTP` loads the profile (with `LastSuccessfullTOTPCounter`) **before** the spacing
+test-and-set, evaluates the presented code against that private copy, and saves the whole profile
+without a version check.  A request is therefore three atomic steps — `load r` (the storage
+statement has returned), `gate r now` (the test-and-set under `totpLocalTateLimitMutex`, then the
+evaluation of the code on the private copy: pure), `save r` (the profile save, then the rate-limit
+record the request holds a copy of is written back and the request answers "valid").  Any number of
+requests presenting the same valid code (matched counter `c`) interleave at these steps. -/
+
+inductive TEv
+  | load (r : Nat)
+  | gate (r : Nat) (now : Int)
+  | save (r : Nat)
+deriving DecidableEq, Repr
+
+structure TSt where
+  stored : Int                    -- LastSuccessfullTOTPCounter in the stored profile
+  lastCheck : Option Int          -- lastCheckTime of the user's rate-limit record (none: no record)
+  seen : Nat → Option Int         -- the counter in request r's private copy of the profile
+  pending : List (Nat × Int)      -- requests whose code was found valid and fresh: (r, their gate time)
+  honoured : List Nat             -- requests answered "valid", newest first
+
+def TSt.init (stored : Int) (lastCheck : Option Int) : TSt :=
+  { stored := stored, lastCheck := lastCheck, seen := fun _ => none, pending := [], honoured := [] }
+
+/-- may the code be evaluated at `now`? (`spacing` on the record, a missing record is the zero time) -/
+def gateOpen (last : Option Int) (now : Int) : Bool :=
+  match last with
+  | none => true
+  | some l => (spacing l now).1
+
+def notReq (r : Nat) (x : Nat × Int) : Bool := x.1 != r
+
+/-- `keep = true`: the code as it is (the success path writes the request's copy of the record, with its
+own `lastCheckTime`, back); `keep = false`: a success path that leaves no record behind -/
+def tStep (keep : Bool) (c : Int) (s : TSt) : TEv → TSt
+  | .load r => { s with seen := fun q => if q = r then some s.stored else s.seen q }
+  | .gate r now =>
+    match s.seen r with
+    | none => s
+    | some v =>
+      if gateOpen s.lastCheck now then
+        (if c ≤ v then { s with lastCheck := some now }           -- already used: refused (fail path)
+         else { s with lastCheck := some now, pending := (r, now) :: s.pending })
+      else s                                                      -- too soon: refused
+  | .save r =>
+    match s.pending.lookup r with
+    | none => s
+    | some t =>
+      { s with stored := c, pending := s.pending.filter (notReq r), honoured := r :: s.honoured,
+               lastCheck := if keep then some t else none }
+
+def tRun (keep : Bool) (c : Int) (s : TSt) (evs : List TEv) : TSt := evs.foldl (tStep keep c) s
+
+/-- "at the same moment": every spacing test of the history falls in one window shorter than the spacing -/
+def TEv.inWindow (base : Int) : TEv → Prop
+  | .gate _ now => base ≤ now ∧ now < base + 2
+  | _ => True
+
 /-! ### hardware-token login challenge: begin / look up / verify / consume
 
 `u2fSignRequest` / `webauthnAuthLogin` store a fresh challenge for the user (`begin`);
